@@ -19,6 +19,8 @@ Verdict judge_c11(const Plan &plan, const sim::Shm *shm, const ChildExit &ex, co
                   Verdict v); // oracle_files.cpp
 Verdict judge_c19(const Plan &plan, const sim::Shm *shm, const ChildExit &ex, const std::string &rundir,
                   Verdict v); // c19.cpp
+Verdict judge_c08t(const Plan &plan, const sim::Shm *shm, const ChildExit &ex, const std::string &rundir,
+                   Verdict v); // oracle_files.cpp
 
 namespace {
 
@@ -183,6 +185,8 @@ Verdict judge(const Plan &plan, const sim::Shm *shm, const ChildExit &ex, const 
 
     if (plan.prop == "C11")
         return judge_c11(plan, shm, ex, rundir, v);
+    if (plan.prop == "C08")
+        return judge_c08t(plan, shm, ex, rundir, v);
     if (plan.prop == "C19")
         return judge_c19(plan, shm, ex, rundir, v);
 
